@@ -78,6 +78,8 @@ long vviol_count(void);
  * used in the key when no sanitizer log exists. */
 typedef void (*vcase_fn)(long idx, void *arg);
 int vfork_case(long idx, vcase_fn fn, void *arg, int watchdog_s, const char *cls);
+/* true once three forked cases of this worker have reported violations, died or hung: the run is lost, stop burning time */
+bool vstop_early(void);
 
 /* misc */
 double vnow(void);
